@@ -59,7 +59,7 @@ async def _await(x):
 
 
 # ---- sequential histories ------------------------------------------------------------------
-OPS = ("await", "take-placeholder", "await-placeholder", "del", "fail-next", "await-other-instance")
+OPS = ("await", "take-placeholder", "await-placeholder", "del", "fail-next", "await-other-instance", "placeholder-of-dropped-instance")
 
 
 def _pre_hist(o0, o1, o2, o3, o4, o5, with_lock):
@@ -148,8 +148,20 @@ def h_hist(o0: int, o1: int, o2: int, o3: int, o4: int, o5: int, with_lock: bool
             cached["r0"] = None
         elif op == 4:
             state["fail_next"] = True
-        else:
+        elif op == 5:
             expect_await(r1, "r1", r1.data)
+        else:
+            # the placeholder keeps working when it is the only thing left of its instance
+            import gc
+
+            tmp = Res("tmp")
+            ph = tmp.data
+            del tmp
+            gc.collect()
+            cached["tmp"] = None
+            state["fail_next"] = False
+            expect_await(None, "tmp", ph)
+            cached.pop("tmp", None)
         if not ok:
             break
     for l in locks:
@@ -277,7 +289,7 @@ def _grid():
 
 GRID = {
     "h_conc": _grid,
-    "h_hist": lambda: [(a, b, c, d, 0, 0, w) for a in range(6) for b in range(6) for c in range(6) for d in (0, 2, 3) for w in (False, True) if P("o0") in (None, a)],
+    "h_hist": lambda: [(a, b, c, d, 0, 0, w) for a in range(7) for b in range(7) for c in range(7) for d in (0, 2, 3) for w in (False, True) if P("o0") in (None, a)],
 }
 
 
@@ -289,7 +301,7 @@ def jobs(tier):
     def add(fn, **part):
         J.append({"module": "c12", "fn": fn, "part": part, "timeout": T})
 
-    for o0 in range(6):
+    for o0 in range(7):
         add("h_hist", L=(4 if q else 5), o0=o0)
     add("h_hist", L=3, falsy=True)
     for lock in (True, False):
